@@ -730,10 +730,14 @@ def sc_fuse(rng, opts):
             y = y.fuse_legs(axes=((0, 1),) + tuple(range(2, y.ndim)), mode=mode2)
         return y
 
+    neg_axes = rng.random() < 0.3       # axes counted from the end
+
     def unfuse(y):
         if depth2:
-            y = y.unfuse_legs(axes=0)
+            y = y.unfuse_legs(axes=-y.ndim if neg_axes else 0)
         ax = [k for k, g in enumerate(groups) if isinstance(g, tuple)]
+        if neg_axes:
+            ax = [k - y.ndim for k in ax]
         return y.unfuse_legs(axes=tuple(ax)) if ax else y
     # partner with conj legs and (sometimes) different sector content
     lb = [l.conj() if rng.random() < 0.6 else perturb_leg(rng, cfg, sym, l).conj() for l in a.get_legs()]
